@@ -535,6 +535,58 @@ def unit_order1_solve(dim, timeout_ms=60000, shard=0, nshards=1):
     return out
 
 
+REPLAY_GLUE = common.REPLAY_HEADER + '''
+common.use_repo_with_build()
+import types
+from pysph.tools.sph_evaluator import SPHEvaluator
+log = []
+ev = SPHEvaluator.__new__(SPHEvaluator)
+old = [object(), object()]
+new = [object(), object()]
+ev.arrays = old
+ev.kernel = types.SimpleNamespace(dim=2, radius_scale=2.0)
+ev.domain_manager = None
+ev.nnps_factory = lambda **kw: log.append(("nnps", kw["particles"])) or ("NNPS", len(log))
+ev.func_eval = types.SimpleNamespace(
+    update_particle_arrays=lambda a: log.append(("func_eval.update_particle_arrays", a)),
+    set_nnps=lambda n: log.append(("set_nnps", n)))
+ev.update_particle_arrays(new)
+bad = None
+made = [x for x in log if x[0] == "nnps"]
+if len(made) != 1 or made[0][1] is not new:
+    bad = "the neighbour search is not rebuilt on the new arrays"
+elif ("func_eval.update_particle_arrays", new) not in log:
+    bad = "the evaluator does not receive the new arrays"
+elif not any(x[0] == "set_nnps" and x[1] == ev.nnps for x in log):
+    bad = "the evaluator does not receive the new neighbour search"
+print(log)
+sys.exit(common.replay_exit(bad))
+'''
+
+
+def unit_evaluator_glue():
+    """SPHEvaluator.update_particle_arrays: the neighbour search is rebuilt
+    on the NEW arrays and handed to the evaluator together with them (the
+    interpolation formulas are only meaningful on consistent arrays)"""
+    out = dict(unit="SPHEvaluator.update_particle_arrays (glue, concrete)",
+               obligations=1, discharged=0, undecided=[])
+    p = common.write_replay(PID, "evaluator_glue", REPLAY_GLUE)
+    rc, txt = common.run_replay(p)
+    if rc == 0:
+        out["discharged"] = 1
+    elif rc == 1 and common.REPLAY_MARK in txt:
+        out.setdefault("violations", []).append(dict(
+            what="SPHEvaluator.update_particle_arrays: " + txt.split(
+                common.REPLAY_MARK + ": ")[-1].strip()[:200], replay=p,
+            info=dict(unit="SPHEvaluator.update_particle_arrays")))
+    else:
+        out.setdefault("harness_errors", []).append(
+            "evaluator glue replay failed: %s" % txt[-300:])
+    from vf.symx import Stats
+    out["stats"] = Stats().as_dict()
+    return out
+
+
 def main():
     t = common.tier()
     common.use_repo_with_build()
@@ -552,7 +604,7 @@ def main():
                 rep.functions.append(common.func_ref(getattr(C, m)))
     layouts = [(0,), (1,), (2,), (1, 1)] if t == "quick" else \
         [(0,), (1,), (2,), (3,), (1, 1), (2, 1)]
-    units = []
+    units = [("vf.props.c14", "unit_evaluator_glue", {})]
     for m in METHODS:
         for lay in layouts:
             units.append(("vf.props.c14", "unit_simple",
